@@ -19,6 +19,7 @@ SOLVERS = [
 ]
 
 _AXIOMS = None
+PREFERRED = {}  # obligation group -> solver name (from baseline/obligations.json)
 
 
 def axioms():
@@ -124,7 +125,16 @@ def discharge_one(obl, smt2, outdir, timeouts):
     total = 0.0
     if obl.expect_sat:
         timeouts = (3, 0, 0)
-    for idx, tmo in enumerate(timeouts):
+    order = list(range(len(timeouts)))
+    pref = PREFERRED.get(obl.group)
+    if pref is not None:
+        # the solver that discharged this obligation group on the pinned tree goes first
+        for i, (nm, _, _) in enumerate(SOLVERS):
+            if nm == pref and i in order:
+                order.remove(i)
+                order.insert(0, i)
+    for idx in order:
+        tmo = timeouts[idx]
         if tmo <= 0:
             continue
         name, res, out, dt = run_solver(idx, path, tmo)
